@@ -11,7 +11,7 @@ CHECKS = {
     'C06': ('model_checking',
             'symbolic execution of the real Ranges code with CrossHair/z3 (symbolic rectangles + symbolic witness cell)',
             'Bounded symbolic checking: _intersect/_split/__add__/__and__/__or__ and both merge steps are decided for every pair (triple for the range operator) of rectangles on the full 16384x1048576 grid with a symbolic witness cell; multi-area difference, intersection, _merge and simplify on a 3x3 grid partitioned by one fixed area.',
-            'Naming (format_range) stubbed; rows carried as ints; multi-area operands only on the small grid; formula-level evaluation outside. ' + TB,
+            'Naming (format_range) stubbed; rows carried as ints; multi-area operands only on the small grid; values through formulas by selectors (12 combined reference expressions, two per formula, workbook model and formula compiled alone). ' + TB,
             'DESIGN.md §3 C06'),
 }
 
@@ -48,7 +48,7 @@ CHECKS['C02'] = ('model_checking',
 CHECKS['C10'] = ('exploration',
     'CrossHair/z3 path exploration over boolean adjacency matrices and workbook selectors; the real cycle analysis and the real ExcelModel run on each explored path against a brute-force / lazy-evaluation oracle',
     'Bounded exhaustive exploration driven by the symbolic executor: simple_cycles reports every elementary cycle exactly once on all 512 digraphs with <= 3 nodes (self-loops, all skip sets) and all 4096 loop-free digraphs on 4 nodes; the lazy-branch predicates of IF/IFS/IFERROR/IFNA for all in-cycle flag combinations (symbolic booleans); 816 workbooks (a 3-cell dependency ring, and three cells with nested IF expressions so that cycles share a cell and one formula holds two guarded back references) with plain / IF-then / IF-else / IFERROR-fallback / both-branch edges and both guard values: finish(circular=True).calculate() terminates, cells off the ring keep their values, unavoidable cycles give the circular error, rings closing only through unselected branches resolve to the lazily evaluated values, and every ordinary value reported equals the lazy value.',
-    'All variables are selectors (each path = one concrete graph / workbook, run natively); graphs <= 4 nodes, rings of 3 cells, no ranges or names on the cycle; cell order / hash seed outside. ' + TB,
+    'All variables are selectors (each path = one concrete graph / workbook, run natively); graphs <= 4 nodes, rings of 3 cells, a third family with cycles through a two-cell range (known finding C10-cycles-sharing-a-range excluded by predicate); every workbook in 4 cell orders; 2 (quick) / 5 (thorough) interpreter hash seeds compared with a seed-0 child; names on the cycle outside. ' + TB,
     'DESIGN.md §3 C10')
 
 CHECKS['C07'] = ('exploration',
@@ -84,12 +84,12 @@ CHECKS['C12'] = ('model_checking',
 CHECKS['C03'] = ('model_checking',
     'symbolic execution of the real range/cell marshalling kernels with CrossHair/z3 (symbolic rectangles + witness cell); selector exploration of whole workbooks',
     'Bounded symbolic checking of the index arithmetic that wires cells to ranges: _get_indices_intersection and _assemble_values copy each cell of every rectangle pair on the full grid from its own offset to its own offset (symbolic witness cell, whole-column bases included). Workbook level by selectors: 1152 dictionary-built workbooks (3 template families x 8x8 constants x 6 insertion orders) calculate to the same values whatever the insertion order, every formula cell equals its own formula applied to the solved values of the cells it refers to (single cells, ranges with blanks, cross-sheet, cross-book, defined name, array formula), constants keep their values.',
-    'Whole-model claims are selector exploration (numpy/schedula cannot carry symbolic values); file loading path and PYTHONHASHSEED outside. ' + TB,
+    'Whole-model claims are selector exploration (numpy/schedula cannot carry symbolic values); the file loading path = two harness workbooks loaded in 4 ways against the dictionary path; 2 (quick) / 5 (thorough) interpreter hash seeds. ' + TB,
     'DESIGN.md §3 C03')
 
 CHECKS['C05'] = ('exploration',
     'CrossHair/z3 path exploration over shape / pool / operator / argument-count selectors; the real fitting and vectorised evaluation run on each path against a position-by-position oracle built from the same functions on scalars',
-    'Bounded exhaustive exploration driven by the symbolic executor: all 256 source x destination shape pairs up to 4x4 are fitted as the statement says (scalar fills, single row / column repeats, surplus dropped, #N/A elsewhere) through Ranges.push and through a Cell result; 10 operators / functions on all broadcastable pairs of 8 operand shapes give, position by position, the scalar result (errors, text, logicals, blanks in the element pool); CONCATENATE gives the same element-wise answer for 9..64 arguments across numpy\'s 32-argument limit.',
+    'Bounded exhaustive exploration driven by the symbolic executor: all 256 source x destination shape pairs up to 4x4 are fitted as the statement says (scalar fills, single row / column repeats, surplus dropped, #N/A elsewhere) through Ranges.push and through a Cell result; 10 operators / functions on all broadcastable pairs of 8 operand shapes give, position by position, the scalar result (errors, text, logicals, blanks in the element pool); CONCATENATE gives the same element-wise answer for 9..64 arguments across numpy\'s 32-argument limit; 12 one-argument functions give the scalar result position by position in 4 memory layouts (C, Fortran, transposed view, strided slice).',
     'Selectors only (numpy does the broadcasting): exploration. Known finding C05-vector-transposed excluded by predicate. ' + TB,
     'DESIGN.md §3 C05')
 
@@ -101,7 +101,7 @@ CHECKS['C13'] = ('model_checking',
 
 CHECKS['C09'] = ('exploration',
     'CrossHair/z3 path exploration over constant / sheet-name / model / formula-tree selectors; every explored path runs the real to_dict -> JSON text -> from_dict -> to_dict chain',
-    'Bounded exhaustive exploration driven by the symbolic executor: all 259 text cells of length <= 3 over {= \" a 1 blank #}, 16 typed constants, three model families x 8x8 constants x 8 sheet names that need quoting (hyphen, blank, apostrophe, leading digit, !, second workbook), and five formula shapes x all 1728 operator triples: the re-imported model computes identical values for every node, the second and third exports equal the first, and a formula\'s exported text parses back to itself.',
+    'Bounded exhaustive exploration driven by the symbolic executor: all 259 text cells of length <= 3 over {= \" a 1 blank #} and 84 texts starting with an error literal / reference / logical, 16 typed constants, three model families x 8x8 constants x 8 sheet names that need quoting (hyphen, blank, apostrophe, leading digit, !, second workbook), and five formula shapes x all 1728 operator triples: the re-imported model computes identical values for every node, the second and third exports equal the first, and a formula\'s exported text parses back to itself.',
     'Selectors only; dictionary-built models (text cells created as the reader creates them). ' + TB,
     'DESIGN.md §3 C09')
 
@@ -113,8 +113,8 @@ CHECKS['C11'] = ('exploration',
 
 CHECKS['C15'] = ('exploration',
     'CrossHair/z3 path exploration over (constants, requested outputs) selectors; every explored path loads real .xlsx files fully and from the chosen outputs and compares the calculated values',
-    'Bounded exhaustive exploration driven by the symbolic executor: for a two-sheet workbook with whole-column / whole-row references, a defined name, an array formula and readers of its spilled cell, ExcelModel().from_ranges(*outputs).finish().calculate() gives on every requested output exactly the value of the fully loaded workbook, for the explored constants and output sets (all 2047 non-empty sets for two constants in the thorough tier); completing / finishing the partial model again changes neither its nodes nor its results.',
-    'Selectors only, one workbook family written by the harness, no references between workbook files: exploration of a file-backed scenario, nothing about arbitrary workbooks. ' + TB,
+    'Bounded exhaustive exploration driven by the symbolic executor: for two real workbooks (sheets referring to each other, whole-row and - on a few paths - whole-column references, a defined name, an array formula, readers of its spilled cell alone and inside larger rectangles, two sheets with one title, cross-workbook references both ways), ExcelModel().from_ranges(*outputs).finish().calculate() gives on every requested output exactly the value of the fully loaded workbooks, for the explored constants and the listed output sets (18 single outputs, 13 combinations, either request order; a seeded sample up to 256 sets in the thorough tier); completing / finishing the partial model - and a deep copy of it - again changes neither its nodes nor its results.',
+    'Selectors only, one workbook family written by the harness (harness/books.py), output sets from a list, whole-column references on 2-16 paths only (1048576 cells assembled per model): exploration of a file-backed scenario, nothing about arbitrary workbooks. ' + TB,
     'DESIGN.md §7.6')
 CHECKS['C16'] = ('exploration',
     'CrossHair/z3 path exploration over (template, constants, override set, way of writing) selectors; every explored path runs the real write() / compare() and reads the books back',
